@@ -50,6 +50,11 @@ type Outcome struct {
 
 // safeEval runs f under recover() with a wall-clock budget.
 func safeEval(f func() (system.Collection, error)) (o Outcome) {
+	return safeEvalWithin(10*time.Second, f)
+}
+
+// safeEvalWithin is safeEval with an explicit wall-clock budget.
+func safeEvalWithin(budget time.Duration, f func() (system.Collection, error)) (o Outcome) {
 	done := make(chan Outcome, 1)
 	go func() {
 		var r Outcome
@@ -65,7 +70,7 @@ func safeEval(f func() (system.Collection, error)) (o Outcome) {
 	select {
 	case o = <-done:
 		return o
-	case <-time.After(10 * time.Second):
+	case <-time.After(budget):
 		return Outcome{TimedOut: true}
 	}
 }
